@@ -40,6 +40,9 @@ func mgmtAlphabet() []EOp {
 		{Kind: "rms", Sec: "g", PType: "g", Rules: G},
 		{Kind: "upds", Sec: "g", PType: "g", Rules: G, News: [][]string{G[0], {"bob", "alice"}}},
 		{Kind: "upds", Sec: "p", PType: "p", Rules: [][]string{P[0], P[1]}, News: [][]string{P[0], {"admin", "data2", "read"}}},
+		// a listed old rule named twice, first with a real replacement and then unchanged: whatever the guard says,
+		// the adapter must not have been changed when memory was not
+		{Kind: "upds", Sec: "p", PType: "p", Rules: [][]string{P[0], P[0]}, News: [][]string{{"erin", "data1", "read"}, P[0]}},
 		// a filter made of empty values only selects every rule (DeleteUser("") does that)
 		{Kind: "rmf", Sec: "p", PType: "p", FI: 0, Vals: []string{""}},
 		// single updates of a rule to itself: nothing changes, not even the index the next calls rely on
@@ -381,6 +384,12 @@ func runC11(c *Ctx) {
 			{Kind: "upds", Sec: "p", PType: "p", Rules: [][]string{B, ghost}, News: [][]string{{"bob", "data1", "read"}, ghost2}},
 			{Kind: "upds", Sec: "g", PType: "g", Rules: [][]string{GA, {"ghost", "admin"}}, News: [][]string{GA, {"ghost", "alice"}}},
 			{Kind: "upds", Sec: "g", PType: "g", Rules: [][]string{GA, GB, {"ghost", "admin"}}, News: [][]string{GA, {"bob", "alice"}, {"ghost", "alice"}}},
+			// one listed old rule named twice, once with a real replacement and once unchanged (either order), alone and
+			// behind another pair: whatever the guard decides, store and memory must stay together
+			{Kind: "upds", Sec: "p", PType: "p", Rules: [][]string{A, A}, News: [][]string{{"alice", "data1", "write"}, A}},
+			{Kind: "upds", Sec: "p", PType: "p", Rules: [][]string{A, A}, News: [][]string{A, {"alice", "data1", "write"}}},
+			{Kind: "upds", Sec: "p", PType: "p", Rules: [][]string{B, A, A}, News: [][]string{{"bob", "data2", "read"}, {"alice", "data1", "write"}, A}},
+			{Kind: "upds", Sec: "g", PType: "g", Rules: [][]string{GA, GA}, News: [][]string{{"alice", "staff"}, GA}},
 			{Kind: "adds", Sec: "p", PType: "p", Rules: [][]string{ghost, A}},
 			{Kind: "rms", Sec: "p", PType: "p", Rules: [][]string{A, ghost}},
 			{Kind: "upd", Sec: "p", PType: "p", Rule: ghost, New: ghost2},
